@@ -122,6 +122,50 @@ def _numbering_rule(fn):
     return out
 
 
+def _feed_rules(fn, tag):
+    """which texts `_parse_*_formatting` hands to the markup parser verbatim (`raw=`): the literal text
+    of the template (raw exactly in recursive calls, i.e. inside format specs), the formatted value /
+    re-assembled field (always raw), and the `recursive=` flag of the recursive call"""
+    env = {"recursive": ("recursive", "bool")}
+    feeds = {}
+    for node in ast.walk(fn):
+        if isinstance(node, ast.Call) and ast.unparse(node.func) == "parser.feed":
+            if len(node.args) != 1:
+                raise Unsupported("parser.feed call shape: " + ast.unparse(node))
+            what = ast.unparse(node.args[0])
+            raw = "false"
+            for kw in node.keywords:
+                if kw.arg != "raw":
+                    raise Unsupported("parser.feed keyword " + str(kw.arg))
+                raw, t = Tr(env).tr(kw.value)
+                Tr.need(t, "bool")
+            if what in feeds:
+                raise Unsupported("parser.feed(%s) occurs twice in %s" % (what, fn.name))
+            feeds[what] = raw
+    second = "formatted" if tag == "With" else "field"
+    if sorted(feeds) != sorted(["literal_text", second]):
+        raise Unsupported("texts fed to the markup parser in %s: %r" % (fn.name, sorted(feeds)))
+    rec = None
+    for node in ast.walk(fn):
+        if isinstance(node, ast.Call) and ast.unparse(node.func) == "Colorizer." + fn.name:
+            for kw in node.keywords:
+                if kw.arg == "recursive":
+                    rec, t = Tr(env).tr(kw.value)
+                    Tr.need(t, "bool")
+    if rec is None:
+        raise Unsupported("recursive= of the recursive call of " + fn.name)
+    d = _kwdefault(fn, "recursive")
+    if not (isinstance(d, ast.Constant) and d.value is False):
+        raise Unsupported("recursive default of " + fn.name)
+    out = "/-- `parser.feed(literal_text, raw=…)` in `%s` -/\n" % fn.name
+    out += "def literalRaw%s (recursive : Bool) : Bool := %s\n" % (tag, feeds["literal_text"])
+    out += "/-- `parser.feed(%s, raw=…)` -/\n" % second
+    out += "def %sRaw%s (recursive : Bool) : Bool := %s\n" % (second, tag, feeds[second])
+    out += "/-- `recursive=…` of the recursive call on the format spec -/\n"
+    out += "def nestedRecursive%s (recursive : Bool) : Bool := %s\n\n" % (tag, rec)
+    return out
+
+
 def _field_parts(fn):
     """the statements that re-assemble a field in _parse_without_formatting, in source order"""
     parts = []
@@ -273,6 +317,8 @@ def generate():
             raise Unsupported("auto_arg_index default")
         body += "def autoArgIndexDefault : Nat := %d\n\n" % a.value
         body += _numbering_rule(pwf)
+        body += _feed_rules(pwf, "With")
+        body += _feed_rules(pwo, "Without")
         body += _field_parts(pwo)
         # prepare_format / prepare_message call the parsers with defaults only
         for name, callee, nargs in (("prepare_format", "Colorizer._parse_without_formatting", 1),
